@@ -23,7 +23,7 @@ SPEC = {
     "min_evaluations": {"quick": 600, "thorough": 6000},
     "must_reach": ["readback_ok", "explicit_ids_honoured", "index_observed", "dynamic_alias_ok", "over_256_rejected", "duplicate_id_rejected",
                    "full_256_compiled", "frame_locals_over_128", "recursion_spill_ok", "abi_output_sub_ok", "reused_options_object"],
-    "shard_timeout": {"quick": 600, "thorough": 7200},
+    "shard_timeout": {"quick": 2400, "thorough": 14400},
 }
 
 
@@ -294,7 +294,7 @@ def check_case(pt, acc, case, shared_opts=None):
     acc.sample({"variables": exp["n_live"], "explicit_ids": case["explicit"][:6], "version": case["version"], "kinds": kinds}, cap=4)
 
 
-KINDS = ["over256", "over256_mixed", "duplicate", "duplicate_far", "duplicate_shared", "duplicate_cross_routine", "out_of_range"]
+KINDS = ["over256", "over256_mixed", "over256_split", "duplicate", "duplicate_far", "duplicate_shared", "duplicate_cross_routine", "out_of_range"]
 
 
 def must_reject(pt, acc, rng, kind=None):
@@ -312,6 +312,23 @@ def must_reject(pt, acc, rng, kind=None):
         elif kind == "over256_mixed":
             vs = [pt.ScratchVar(pt.TealType.uint64) for _ in range(200)] + [pt.ScratchVar(pt.TealType.uint64, i) for i in range(57)]
             prog = pt.Seq(*[v.store(I(i)) for i, v in enumerate(vs)], pt.Add(*[v.load() for v in vs]))
+        elif kind == "over256_split":
+            # more than 256 variables in total, but no single routine has more than 256 of its own
+            total = rng.choice([257, 257, 258, 270, 300])
+            nsub = rng.choice([1, 1, 2, 3])
+            cuts = sorted(rng.sample(range(20, total - 20), nsub))
+            sizes = [b - a for a, b in zip([0] + cuts, cuts + [total])]
+            case["sizes"] = sizes
+
+            def mk(j, k):
+                def body():
+                    loc = [pt.ScratchVar(pt.TealType.uint64) for _ in range(k)]
+                    return pt.Seq(*[v.store(I(i)) for i, v in enumerate(loc)], pt.Add(I(0), I(0), *[v.load() for v in loc]))
+                body.__name__ = "part%d" % j
+                return pt.Subroutine(pt.TealType.uint64)(body)
+            subs = [mk(j, k) for j, k in enumerate(sizes[1:])]
+            vs = [pt.ScratchVar(pt.TealType.uint64) for _ in range(sizes[0])]
+            prog = pt.Seq(*[v.store(I(i)) for i, v in enumerate(vs)], pt.Add(I(0), *[f() for f in subs], *[v.load() for v in vs]))
         elif kind in ("duplicate", "duplicate_far"):
             sid = rng.randrange(256)
             a, b = pt.ScratchVar(pt.TealType.uint64, sid), pt.ScratchVar(pt.TealType.uint64, sid)
